@@ -155,3 +155,485 @@ def reaction_table():
                 b.open(c2).ka(c2).adv(1)
                 out.append(b.tag(st, "cell").build())
     return out
+
+
+def collision():
+    """C07: both connections exchange OPENs before either is Established."""
+    out = []
+    # (routerID local, remote id, localAS, remoteAS): id <, >, = with AS <, >
+    rel = [("lt", "10.0.0.1", "10.0.0.2", 65001, 65002), ("gt", "10.0.0.9", "10.0.0.2", 65001, 65002),
+           ("eqAsGt", "10.0.0.2", "10.0.0.2", 65009, 65002), ("eqAsLt", "10.0.0.2", "10.0.0.2", 65001, 65002),
+           ("lt4", "10.0.0.1", "10.0.0.2", 4200000001, 4200000002)]
+    for rn, lid, rid, las, ras in rel:
+        for first_conn in DIRS:            # which connection is opened first
+            for first_open in DIRS:        # whose OPEN arrives first
+                for ka_on in ("keep", "lose", "both"):
+                    b = Sb("col-%s-%s-%s-%s" % (rn, first_conn, first_open, ka_on),
+                           [peer(localAS=las, remoteAS=ras)], routerID=lid)
+                    b.start()
+                    cs = {}
+                    for d in ((first_conn,) + tuple(x for x in DIRS if x != first_conn)):
+                        cs[d] = b.dial_ok() if d == "out" else b.connect()
+                    for d in ((first_open,) + tuple(x for x in DIRS if x != first_open)):
+                        b.open(cs[d], rid=rid)
+                    # after resolution: KEEPALIVE on the connection(s)
+                    dominant = ip4(lid) > ip4(rid) or (lid == rid and las > ras)
+                    keep = "out" if dominant else "in"
+                    lose = "in" if dominant else "out"
+                    if ka_on in ("keep", "both"):
+                        b.ka(cs[keep]).upd(cs[keep])
+                    if ka_on in ("lose", "both"):
+                        b.ka(cs[lose])
+                    b.adv(1)
+                    out.append(b.tag("collision").build())
+    # established first: KEEPALIVE on the first connection before the second OPEN
+    for rn, lid, rid, las, ras in rel[:2]:
+        for first in DIRS:
+            b = Sb("col-estfirst-%s-%s" % (rn, first), [peer(localAS=las, remoteAS=ras)], routerID=lid)
+            b.start()
+            cs = {}
+            cs[first] = b.dial_ok() if first == "out" else b.connect()
+            o = "in" if first == "out" else "out"
+            if o == "out":
+                cs[o] = b.dial_ok()
+                b.open(cs[first], rid=rid).ka(cs[first]).open(cs[o], rid=rid)
+            else:
+                b.open(cs[first], rid=rid)
+                cs[o] = b.connect()
+                b.ka(cs[first]).open(cs[o], rid=rid)
+            b.upd(cs[first]).adv(1)
+            out.append(b.tag("collision", "estfirst").build())
+    # faults on the would-be survivor racing with resolution
+    for fault in ("eof", "cease", "notif"):
+        for rn, lid, rid, las, ras in rel[:2]:
+            b = Sb("col-fault-%s-%s" % (fault, rn), [peer(localAS=las, remoteAS=ras)], routerID=lid)
+            b.start()
+            co, ci = b.dial_ok(), b.connect()
+            b.open(co, rid=rid)
+            keep = co if rn == "gt" else ci
+            lose = ci if rn == "gt" else co
+            if fault == "eof":
+                b.rclose(keep)
+            elif fault == "cease":
+                b.notif(keep, 6, 0)
+            else:
+                b.notif(keep, 2, 2)
+            b.open(ci, rid=rid).ka(lose).adv(1).adv(70)
+            out.append(b.tag("collision", "fault").build())
+    return out
+
+
+def stop_points():
+    """C10: Close / DeletePeer at every quiescent point of connection scripts."""
+    out = []
+    prefixes = []
+
+    def mk(name, fn):
+        prefixes.append((name, fn))
+
+    mk("fresh", lambda b: None)
+    mk("dialrefused", lambda b: b.dial_refuse())
+    mk("connect-pending", lambda b: b.adv(1))
+    for d in DIRS:
+        for st in STATES:
+            mk("%s-%s" % (d, st), lambda b, d=d, st=st: b.to_state(st, direction=d))
+    mk("both-opensent", lambda b: (b.dial_ok(), b.connect()))
+    mk("collision-done", lambda b: [b.open(c) for c in (b.dial_ok(), b.connect())])
+    mk("active-after-eof", lambda b: b.rclose(b.dial_ok()))
+    mk("damped", lambda b: (b.notif(b.establish(), 3, 1), b.adv(10)))
+    mk("est-then-writes", lambda b: (b.establish(), b.write("p1", 1, [1, 2, 3])))
+    mk("retry-stalled", lambda b: b.adv(5))
+    for name, fn in prefixes:
+        for how in ("close", "delete", "delete-then-close"):
+            for passive in (False, True):
+                if passive and not name.startswith("in-") and name != "fresh":
+                    continue
+                b = Sb("stop-%s-%s%s" % (name, how, "-pas" if passive else ""), [peer(passive=passive)])
+                b.start()
+                fn(b)
+                if how == "close":
+                    b.close()
+                elif how == "delete":
+                    b.delete()
+                    b.adv(20)
+                else:
+                    b.delete().close()
+                out.append(b.tag("stop").build())
+    return out
+
+
+def damping():
+    """C12: protocol errors damp (60 s doubling to 300 s, amnesia after 300 s); Cease / TCP faults do not."""
+    out = []
+
+    def err(b, kind, d):
+        """cause one protocol error on a fresh session in direction d; returns conn"""
+        if kind.startswith("rx"):            # received NOTIFICATION code n in Established
+            c = b.establish(direction=d)
+            b.notif(c, int(kind[2:]), 1)
+        elif kind == "hdr":
+            c = b.establish(direction=d)
+            b.send(c, frame(2, [], length=18))
+        elif kind == "badopen":
+            c = b.to_state("openSent", direction=d)
+            b.open(c, hold=2)
+        elif kind == "fsm":
+            c = b.to_state("openConfirm", direction=d)
+            b.upd(c)
+        elif kind == "hold":
+            c = b.establish(direction=d, hold=3)
+            b.adv(3)
+        elif kind == "handler":
+            c = b.establish(direction=d)
+            b.upd(c, [9, 9, 9, 9])
+        return c
+
+    kinds = ["rx1", "rx2", "rx3", "rx4", "rx5", "rx7", "hdr", "badopen", "fsm", "hold", "handler"]
+    for k in kinds:
+        for d in DIRS:
+            p = peer(handlerReplies={"1": {"code": 3, "sub": 1, "data": [7]}} if k == "handler" else None)
+            b = Sb("damp-%s-%s" % (k, d), [p])
+            b.start()
+            if d == "in":
+                pass
+            err(b, k, d)
+            # probes around the 60 s threshold
+            b.advu(sec(59) + 2999)
+            c = b.connect()          # still held down: refused
+            b.advu(1)                # exactly 60 s: hold-down over, dial starts
+            b.advu(1)
+            c = b.connect()
+            b.open(c).ka(c).adv(1)
+            out.append(b.tag("damp").build())
+    # histories: delay sequence 60,120,240,300,300 and amnesia
+    for gaps, name in (((1, 1, 1, 1), "double"), ((1, 299, 1), "noamnesia"), ((1, 301, 1), "amnesia")):
+        b = Sb("damp-hist-%s" % name, [peer(passive=True)])
+        b.start()
+        delay = 60
+        c = b.establish(direction="in")
+        b.notif(c, 3, 1)
+        for g in gaps:
+            b.adv(delay + g)         # hold-down over (+ gap since the error)
+            c = b.establish(direction="in")
+            b.notif(c, 2, 2)
+            b.adv(delay)             # previous delay has passed: still held down if doubled
+            cx = b.connect()
+            delay = min(2 * delay, 300)
+        b.adv(301)
+        c = b.establish(direction="in")
+        b.adv(1)
+        out.append(b.tag("damp", "history").build())
+    # non-damping faults never damp
+    for k in ("cease", "eof", "reset"):
+        for d in DIRS:
+            b = Sb("nodamp-%s-%s" % (k, d))
+            b.start()
+            c = b.establish(direction=d)
+            if k == "cease":
+                b.notif(c, 6, 1)
+            elif k == "eof":
+                b.rclose(c)
+            else:
+                b.rreset(c)
+            c2 = b.connect()
+            b.open(c2).ka(c2).adv(6)
+            out.append(b.tag("nodamp").build())
+    return out
+
+
+def pacing():
+    """C11: retry pacing and reconnection after non-damping faults."""
+    out = []
+    for ih, cr in ((5, 5), (1, 10), (10, 1), (0.1, 0.3)):
+        for passive in (False,):
+            p = peer(idleHold=sec(ih), connRetry=sec(cr))
+            # all refused
+            b = Sb("pace-refuse-%s-%s" % (ih, cr), [p])
+            b.start()
+            for _ in range(4):
+                b.dial_refuse()
+                b.advu(sec(ih) - 1).advu(1)
+            c = b.dial_ok()
+            b.open(c).ka(c).adv(1)
+            out.append(b.tag("pace").build())
+            # stalled connects
+            b = Sb("pace-stall-%s-%s" % (ih, cr), [p])
+            b.start()
+            for _ in range(3):
+                b.advu(sec(cr) - 1).advu(1)
+            c = b.dial_ok()
+            b.open(c).ka(c).adv(1)
+            out.append(b.tag("pace").build())
+            # fault sequences followed by cooperative remote
+            faults = ("refuse", "eofOpenSent", "eofOpenConfirm", "eofEst", "ceaseEst", "stall", "resetEst")
+            for seq in itertools.product(faults, repeat=2):
+                b = Sb("pace-seq-%s-%s-%s" % (ih, cr, "+".join(seq)), [p])
+                b.start()
+                for f in seq:
+                    if f == "refuse":
+                        b.dial_refuse()
+                        b.advu(sec(ih))
+                    elif f == "stall":
+                        b.advu(sec(cr))
+                    else:
+                        st = {"eofOpenSent": "openSent", "eofOpenConfirm": "openConfirm"}.get(f, "established")
+                        c = b.to_state(st)
+                        if f.startswith("eof"):
+                            b.rclose(c)
+                        elif f == "ceaseEst":
+                            b.notif(c, 6, 0)
+                        else:
+                            b.rreset(c)
+                        b.advu(sec(max(ih, cr)))
+                c = b.dial_ok()
+                b.open(c).ka(c).adv(1)
+                out.append(b.tag("pace", "seq").build())
+    # passive peers never dial; inbound flap then redial
+    b = Sb("pace-passive", [peer(passive=True)])
+    b.start().adv(30)
+    c = b.establish(direction="in")
+    b.rclose(c).adv(30)
+    c = b.establish(direction="in")
+    b.adv(1)
+    out.append(b.tag("pace", "passive").build())
+    b = Sb("pace-inflap")
+    b.start()
+    c = b.establish(direction="in")
+    b.rclose(c)
+    c2 = b.dial_ok()
+    b.open(c2).ka(c2)
+    out.append(b.tag("pace").build())
+    return out
+
+
+def holdgrid(pairs=None, rnd=None, nrand=0):
+    """C06: (local, remote) hold times x traffic patterns."""
+    out = []
+    base = [0, 3, 4, 9, 10, 30, 90, 180, 240, 65535]
+    if pairs is None:
+        pairs = [(a, b) for a in (0, 3, 10, 90, 65535) for b in (0, 3, 10, 90, 65535)]
+    pairs = list(pairs)
+    if rnd is not None:
+        for _ in range(nrand):
+            pairs.append((rnd.choice([0] + [rnd.randint(3, 65535)] * 3), rnd.choice([0] + [rnd.randint(3, 65535)] * 3)))
+    for lh, rh in pairs:
+        h = min(lh, rh)
+        for d in DIRS:
+            for pat in ("silent", "ka", "upd", "late", "writes"):
+                if pat != "silent" and d == "in" and (lh, rh) not in ((3, 90), (0, 90), (90, 0), (10, 10)):
+                    continue
+                b = Sb("hold-%d-%d-%s-%s" % (lh, rh, d, pat), [peer(hold=lh)])
+                b.start()
+                c = b.to_state("openConfirm", direction=d, hold=rh)
+                if h == 0:
+                    b.adv(300)          # OpenConfirm: no timers at all
+                    b.ka(c)
+                    b.adv(1000).upd(c).adv(100000)
+                    out.append(b.tag("hold", "zero").build())
+                    continue
+                H = sec(h)
+                if pat == "silent":
+                    b.ka(c)
+                    b.advu(H - 1).advu(1).adv(1)
+                elif pat in ("ka", "upd"):
+                    b.ka(c)
+                    for _ in range(4):
+                        b.advu(H - 1)
+                        if pat == "ka":
+                            b.ka(c)
+                        else:
+                            b.upd(c)
+                    b.advu(H - 1).advu(1)
+                elif pat == "late":
+                    # remote's KEEPALIVE arrives 1 unit after expiry in OpenConfirm
+                    b.advu(H).advu(1)
+                    b.ka(c)
+                else:
+                    b.ka(c)
+                    for _ in range(5):
+                        b.advu(H // 6)
+                        b.write("p1", 1, [0, 0, 0, 0])
+                    b.advu(H // 3 - 1).advu(1).ka(c).advu(H // 3)
+                out.append(b.tag("hold").build())
+    return out
+
+
+def writers():
+    """C04: WriteUpdate contract under callbacks, keepalives and teardown."""
+    out = []
+    bodies = [[], [7], list(range(200)) * 20 + list(range(77))]   # 0, 1, 4077 bytes
+    for d in DIRS:
+        p = peer(hold=3, estWrites=[[1], [2, 2]], handlerWrites={"1": [[3]], "2": [[4], [5]]})
+        b = Sb("wr-callbacks-%s" % d, [p])
+        b.start()
+        c = b.establish(direction=d, hold=3)
+        b.upd(c).upd(c).upd(c)
+        for body in bodies:
+            b.write("p1", 1, body)
+        b.adv(1).write("p1", 1, [9]).ka(c).advu(sec(1) - 1).advu(1).ka(c).adv(1).ka(c)
+        b.notif(c, 6, 0)
+        b.write("p1", 1, [10])            # stale writer after the session ended
+        b.adv(6)
+        c2 = b.establish(direction=d, hold=3)
+        b.write("p1", 1, [11]).write("p1", 2, [12])
+        out.append(b.tag("writer").build())
+    for end in ("cease", "eof", "reset", "notif", "delete", "close", "holdexp"):
+        for d in DIRS:
+            b = Sb("wr-end-%s-%s" % (end, d), [peer(hold=9)])
+            b.start()
+            c = b.establish(direction=d, hold=9)
+            b.write("p1", 1, [1, 2, 3])
+            if end == "cease":
+                b.notif(c, 6, 0)
+            elif end == "eof":
+                b.rclose(c)
+            elif end == "reset":
+                b.rreset(c)
+                b.write("p1", 1, [4])      # write error on a reset connection
+            elif end == "notif":
+                b.notif(c, 3, 2)
+            elif end == "delete":
+                b.delete()
+            elif end == "close":
+                b.close()
+            else:
+                b.adv(9)
+            b.write("p1", 1, [5])
+            if end not in ("close", "delete"):
+                b.adv(61)
+                c2 = b.establish(direction="in", hold=9)
+                b.write("p1", 1, [6]).write("p1", 2, [7])
+            out.append(b.tag("writer", "end").build())
+    # two peers: a stale writer of one never writes on the other
+    ps = [peer("p1", "10.0.0.2"), peer("p2", "10.0.0.3", remoteAS=65003)]
+    b = Sb("wr-two-peers", ps)
+    b.start()
+    c1 = b.establish("p1", "in")
+    c2 = b.establish("p2", "in")
+    b.write("p1", 1, [1]).write("p2", 1, [2]).rclose(c1).write("p1", 1, [3]).write("p2", 1, [4])
+    out.append(b.tag("writer").build())
+    return out
+
+
+def chunkings(n, cuts):
+    return [c for c in cuts if 0 < c < n]
+
+
+def segmentation(rnd):
+    """C03/C08: UPDATE delivery independent of TCP segmentation; interleaved KEEPALIVEs."""
+    out = []
+    lens = [0, 1, 3, 4, 23, 4076, 4077]
+    k = 0
+    for d in DIRS:
+        for trial in range(6):
+            seq = []
+            for _ in range(rnd.randint(2, 6)):
+                if rnd.random() < 0.3:
+                    seq.append(keepalive())
+                else:
+                    n = rnd.choice(lens)
+                    seq.append(update([(k + i) % 251 for i in range(n)]))
+                    k += 1
+            stream = [x for m in seq for x in m]
+            for mode in ("one", "bytes", "cuts", "random", "timed"):
+                b = Sb("seg-%s-%d-%s" % (d, trial, mode), [peer()])
+                b.start()
+                c = b.establish(direction=d)
+                if mode == "one":
+                    b.send(c, stream)
+                elif mode == "bytes":
+                    b.send(c, stream, [1] * min(len(stream), 6000))
+                elif mode == "cuts":
+                    cuts = []
+                    pos = 0
+                    for m in seq:
+                        for off in (8, 16, 17, 18, 19, len(m) // 2 + 19 if len(m) > 19 else 19, len(m) - 1, len(m) + 1):
+                            if 0 < off:
+                                cuts.append(pos + off)
+                        pos += len(m)
+                    cuts = sorted(set(c_ for c_ in cuts if 0 < c_ < len(stream)))
+                    sizes = [b_ - a_ for a_, b_ in zip([0] + cuts, cuts + [len(stream)])]
+                    b.send(c, stream, sizes)
+                elif mode == "random":
+                    sizes = []
+                    left = len(stream)
+                    while left > 0:
+                        n = min(left, rnd.choice([1, 2, 17, 19, 20, 100, 1500, 5000]))
+                        sizes.append(n)
+                        left -= n
+                    b.send(c, stream, sizes)
+                else:
+                    # several stimuli: partial message, wait, rest
+                    pos = 0
+                    while pos < len(stream):
+                        n = min(len(stream) - pos, rnd.choice([5, 18, 19, 30, 4000]))
+                        b.send(c, stream[pos:pos + n])
+                        pos += n
+                b.adv(1)
+                out.append(b.tag("seg").build())
+    # handler NOTIFICATION at k: later UPDATEs not delivered
+    for d in DIRS:
+        for kk in (1, 2, 3):
+            p = peer(handlerReplies={str(kk): {"code": 3, "sub": 1, "data": [1, 2, 3]}})
+            b = Sb("seg-handler-notif-%s-%d" % (d, kk), [p])
+            b.start()
+            c = b.establish(direction=d)
+            b.send(c, [x for i in range(4) for x in update([i] * 5)])
+            b.adv(1)
+            out.append(b.tag("seg", "handlernotif").build())
+    # no handler installed
+    b = Sb("seg-nohandler", [peer(noHandler=True)])
+    b.start()
+    c = b.establish()
+    b.upd(c).upd(c).adv(1)
+    out.append(b.tag("seg").build())
+    return out
+
+
+def headers(rnd, lengths=None, types=None):
+    """C08: header faults at each state, after well-formed messages."""
+    out = []
+    lengths = lengths or [0, 1, 18, 19, 20, 28, 29, 4095, 4096, 4097, 65535]
+    types = types or [0, 1, 2, 3, 4, 5, 6, 255]
+    cases = []
+    for pos in range(16):
+        for v in (0x00, 0xFE):
+            m = [0xFF] * 16
+            m[pos] = v
+            cases.append(("mk%d-%d" % (pos, v), m + [0, 19, 4]))
+    for ln in lengths:
+        for ty in (2, 4, 9):
+            body = [5] * max(0, min(ln, 4096) - 19)
+            cases.append(("len%d-t%d" % (ln, ty), [0xFF] * 16 + u16(ln) + [ty] + body))
+    for ty in types:
+        for ln in (19, 23):
+            cases.append(("ty%d-l%d" % (ty, ln), [0xFF] * 16 + u16(ln) + [ty] + [1] * (ln - 19)))
+    for name, raw in cases:
+        st = rnd.choice(STATES)
+        d = rnd.choice(DIRS)
+        pre = rnd.choice([0, 1, 2]) if st == "established" else 0
+        seg = rnd.choice(["one", "hb", "bytes"])
+        b = Sb("hdr-%s-%s-%s-%d-%s" % (name, st, d, pre, seg), [peer()])
+        b.start()
+        c = b.to_state(st, direction=d)
+        stream = [x for i in range(pre) for x in update([i, i])] + raw + keepalive()
+        if seg == "one":
+            b.send(c, stream)
+        elif seg == "hb":
+            b.send(c, stream, [19 + 23 * pre, 10])
+        else:
+            b.send(c, stream, [1] * min(len(stream), 200))
+        b.adv(1)
+        out.append(b.tag("hdr").build())
+    # truncated body + EOF, absent body + stall
+    for st in STATES:
+        for kind in ("trunc-eof", "stall"):
+            b = Sb("hdr-%s-%s" % (kind, st), [peer()])
+            b.start()
+            c = b.to_state(st)
+            b.send(c, [0xFF] * 16 + u16(40) + [2] + [1, 2, 3])
+            if kind == "trunc-eof":
+                b.rclose(c)
+            b.adv(10)
+            out.append(b.tag("hdr").build())
+    return out
